@@ -47,16 +47,20 @@ def _init_post(S, o):
     return out
 
 
-def _init_variants(params, requires=None, hooks=None):
-    return [Variant('construct', params=params, post=_init_post, props=('C08',), requires=requires, hooks=hooks or {})]
+def _init_variants(params, requires=None, hooks=None, props=('C08',), name='construct'):
+    return [Variant(name, params=params, post=_init_post, props=props, requires=requires, hooks=hooks or {})]
 
 
-def _mk_init(cls, params):
+def _mk_init(cls, params, props=('C08',), more=()):
+    # `props`: "every field holds the parameter it is named after" carries each property that depends on the stage's
+    # configuration (a constructor that rewrites a parameter changes what the stage does)
     class C(ClassContract):
         def view(self, eng, st):
             return None
     C.cls = cls
-    C.methods = {'__init__': _init_variants(params)}
+    C.methods = {'__init__': _init_variants(params, props=props)}
+    for nm, p2 in more:
+        C.methods['__init__'] = C.methods['__init__'] + _init_variants(p2, props=props, name=nm)
     C.__name__ = cls + 'InitC'
     return C()
 
@@ -66,17 +70,22 @@ def _excspec(e, s):
 
 
 INITS = [
-    _mk_init('MapDataset', {'map_function': 'fn', 'input_dataset': 'ds'}),
-    _mk_init('FilterDataset', {'filter_function': 'fn', 'input_dataset': 'ds'}),
-    _mk_init('CatchExceptionDataset', {'input_dataset': 'ds', 'exceptions': _excspec, 'warn': 'bool'}),
-    _mk_init('BatchDataset', {'input_dataset': 'ds', 'batch_size': 'int', 'drop_last': 'bool'}),
+    _mk_init('MapDataset', {'map_function': 'fn', 'input_dataset': 'ds'}, props=('C08', 'C01')),
+    _mk_init('FilterDataset', {'filter_function': 'fn', 'input_dataset': 'ds'}, props=('C08', 'C14')),
+    _mk_init('CatchExceptionDataset', {'input_dataset': 'ds', 'exceptions': _excspec, 'warn': 'bool'}, props=('C08', 'C14', 'C06')),
+    _mk_init('BatchDataset', {'input_dataset': 'ds', 'batch_size': 'int', 'drop_last': 'bool'}, props=('C08', 'C01', 'C02')),
     _mk_init('UnbatchDataset', {'input_dataset': 'ds'}),
     _mk_init('ItemsDataset', {'input_dataset': 'ds'}),
     _mk_init('CycleDataset', {'input_dataset': 'ds'}),
     _mk_init('LocalShuffleDataset', {'input_dataset': 'ds', 'buffer_size': 'int',
                                      'rng': (lambda e, s: OpaqueV('rng'))}),
     _mk_init('PrefetchDataset', {'input_dataset': 'ds', 'num_workers': 'int', 'buffer_size': 'int',
-                                 'backend': (lambda e, s: StrV('t')), 'catch_filter_exception': 'none'}),
+                                 'backend': (lambda e, s: StrV('t')), 'catch_filter_exception': 'none'},
+             props=('C08', 'C04', 'C05', 'C06', 'C07'),
+             more=[('construct,catch=exception-spec', {'input_dataset': 'ds', 'num_workers': 'int', 'buffer_size': 'int',
+                                                       'backend': (lambda e, s: StrV('t')), 'catch_filter_exception': _excspec}),
+                   ('construct,catch=True', {'input_dataset': 'ds', 'num_workers': 'int', 'buffer_size': 'int',
+                                             'backend': (lambda e, s: StrV('t')), 'catch_filter_exception': 'true'})]),
 ]
 
 
@@ -221,7 +230,10 @@ def _batch_map_post(S, o):
         return [('batch_map:returns-a-stage', smt.F)]
     if v.cls == 'ParMapDataset':
         kw = v.kwargs
-        return [('C08:batch_map-forwards-num_workers-buffer_size-backend',
+        w = v.args[0] if v.args else kw.get('map_function')
+        return [('C04:parallel-batch_map-maps-_BatchMapWrapper(map_fn)-over-the-batches',
+                 z3.BoolVal(isinstance(w, StageV) and w.cls == '_BatchMapWrapper' and len(w.args) == 1 and w.args[0] is env['map_fn'])),
+                ('C08:batch_map-forwards-num_workers-buffer_size-backend',
                  z3.BoolVal(kw.get('num_workers') is env['num_workers'] and kw.get('buffer_size') is env['buffer_size']
                             and kw.get('backend') is env['backend'])),
                 ('C08:construction-evaluates-nothing', z3.BoolVal(not evals(S)))]
@@ -243,7 +255,7 @@ class BatchMapC(DatasetC):
     methods = {'batch_map': [Variant('parallel', params={'map_fn': 'fn', 'num_workers': 'int', 'buffer_size': 'int',
                                                          'backend': (lambda e, s: StrV('t'))},
                                      requires=lambda S: S.old.num_workers > 0, post=_batch_map_post, hooks=_bm_hooks(),
-                                     props=('C08',))]}
+                                     props=('C08', 'C04', 'C01'))]}
 
 
 # unbatch: when the k-th example is handed out exactly the input batches up to the one holding it have been pulled
